@@ -2,10 +2,11 @@
    Extract_pipe.v: ExtrOcamlBasic only; N, Z, positive, nat stay the extracted inductive types). *)
 Require Extraction.
 Require Import ExtrOcamlBasic.
-From V Require Import Regex.Validator Regex.RuleDecision.
+From V Require Import Regex.Validator Regex.RuleDecision Regex.FragParser.
 Extraction Language OCaml.
 
 Separate Extraction
   Validator.init_vst Validator.validate_pattern
   RuleDecision.validate_flags RuleDecision.check_regex RuleDecision.check_file RuleDecision.validate_seq
-  RuleDecision.dirty_vst.
+  RuleDecision.dirty_vst
+  FragParser.recognises FragParser.in_fragment.
